@@ -1074,3 +1074,24 @@ def _(eng, ci, a, dt):
     else:
         raise Unsupported('Fn::call argument pack %r' % (args,))
     return eng.call_callable(a[0], args)
+
+
+# ----------------------------------------------------------------------------- NonZero (chrono's NaiveDate is a NonZero<i32>)
+
+@model('NonZero::new_unchecked')
+def _(eng, ci, a, dt):
+    return Agg([a[0]], 'NonZero')
+
+
+@model('NonZero::new')
+def _(eng, ci, a, dt):
+    v = a[0]
+    z = (v == 0) if not is_sym(v) else (v == z3.BitVecVal(0, v.size()))
+    if eng.truth(z):
+        return none()
+    return some(Agg([v], 'NonZero'))
+
+
+@model('NonZero::get')
+def _(eng, ci, a, dt):
+    return deref(a[0]).f[0]
